@@ -31,11 +31,9 @@
    Right-hand side: (observed - computed) * 1e3 [mm] for lengths, * R2CC [cc] for angles, angles reduced by whole
    circles (400e4 cc) into half a circle around zero.
 
-   HALF-OPEN RANGE (checks <fn>_halfopen, -DLIN_HALFOPEN=1): the property asks for "the half-open range of half a
-   circle" without saying which end is open.  It holds iff AT LEAST ONE of the two clauses `rhs > -200e4`,
-   `rhs < 200e4` holds for all inputs.  On the tree as found BOTH fail (the reduction `while (a > 200e4) ...
-   while (a < -200e4) ...` keeps both ends: closed interval, DESIGN.md section 6 item 11; native demonstration in
-   replay.cpp).  When the repository adopts a convention, the clause for the other end is to be deleted.
+   HALF-OPEN RANGE: the property asks for "the half-open range of half a circle" without saying which end is open.
+   On the tree as found BOTH ends were produced (closed interval; native demonstration in replay.cpp); the repository
+   adopted [-200, 200) gon with its commit 3a3bc0b, and REDUCED() below states exactly that range.
 
    TWO checks per function (same contract text, selected by -DLIN_VALUES):
      <fn>      LIN_VALUES=0, SAT:  row structure -- size, index set (each unknown once), index-assignment protocol,
@@ -49,9 +47,6 @@
 #include "lin_gen.h" /* generated from the repository by lin_pre.py: M_PI, R2G, R2CC, ...; LocalPoint status enum; CS */
 #ifndef LIN_VALUES
 #define LIN_VALUES 0
-#endif
-#ifndef LIN_HALFOPEN
-#define LIN_HALFOPEN 0
 #endif
 
 typedef int PointID;
@@ -313,7 +308,7 @@ bool AngularObservations_right_handed_angles(const struct PointData *self);
 #define ADDN(r, j) ((j) == 0 ? (r) : (j) == 1 ? (r) + 400e4 : (j) == 2 ? ((r) + 400e4) + 400e4 : (((r) + 400e4) + 400e4) + 400e4)
 #define RAW_OK(raw) (-1200e4 <= (raw) && (raw) <= 1200e4) /* stated precondition: |misclosure| <= 3 full circles */
 #define REDUCED(L) ((G.j1 == 0 || G.j2 == 0) && 0 <= G.j1 && G.j1 <= 3 && 0 <= G.j2 && G.j2 <= 3 &&          \
-                    (L)->rhs == ADDN(SUBN(G.raw, G.j1), G.j2) && -200e4 <= (L)->rhs && (L)->rhs <= 200e4)
+                    (L)->rhs == ADDN(SUBN(G.raw, G.j1), G.j2) && -200e4 <= (L)->rhs && (L)->rhs < 200e4) /* half-open [-200, 200) gon */
 
 /* Instantiation of the stated precondition RAW_OK(RAW_x_IN) (misclosure expression over the inputs) at the variable the
    reduction loops start from.  RAW_x (what `a` is proved equal to) and RAW_x_IN are the same expression up to the ghost
@@ -322,11 +317,6 @@ bool AngularObservations_right_handed_angles(const struct PointData *self);
 #if LIN_VALUES
 #define LIN_INST_RAW(a, spec) do { __CPROVER_assert((a) == (spec), "instantiation index in range: loops start from the misclosure that the precondition bounds"); \
                                    __CPROVER_assume(RAW_OK(a)); } while (0)
-#elif defined(LIN_EXCL_HALFCIRCLE)
-/* exclusion predicate of the known finding "closed interval": the raw misclosure is not exactly an odd multiple of
-   half a circle (the only inputs for which +200 gon / -200 gon are two names of the same angle) */
-#define ODD_HALF(a) ((a) == 200e4 || (a) == -200e4 || (a) == 600e4 || (a) == -600e4 || (a) == 1000e4 || (a) == -1000e4)
-#define LIN_INST_RAW(a, spec) __CPROVER_assume(RAW_OK(a) && !ODD_HALF(a))
 #else
 #define LIN_INST_RAW(a, spec) __CPROVER_assume(RAW_OK(a))
 #endif
@@ -482,10 +472,6 @@ __CPROVER_ensures((gv_exc == 0) == (SP(obs)->test_or != 0))
 __CPROVER_ensures(G.nsqrt == 1 && G.natan2 == 1 && G.nsin == 1 && G.ncos == 1 && TRIG_OF(0) && HINTS_EQ(0))
 __CPROVER_ensures(gv_exc == 0 ==> (ORIX(obs) == SP(obs)->attr_or && REDUCED(self)))
 __CPROVER_ensures(gv_exc == 0 ==> POST_ROW(ALL5, SUM5, U_OR, U_FX, U_FY, U_TX, U_TY))
-#if LIN_HALFOPEN
-__CPROVER_ensures(gv_exc == 0 ==> self->rhs > -200e4) /* half-open (-200, 200] gon */
-__CPROVER_ensures(gv_exc == 0 ==> self->rhs < 200e4)  /* half-open [-200, 200) gon */
-#endif
 #endif
 //@ entry LocalLinearization_direction
 GV_CANARY("LocalLinearization_direction entry");
@@ -500,7 +486,7 @@ __CPROVER_decreases(3 - G.j1)
 G.j1++;
 //@ loop LocalLinearization_direction 2
 __CPROVER_assigns(a, G.j2)
-__CPROVER_loop_invariant(0 <= G.j2 && G.j2 <= 3 && (G.j1 == 0 || G.j2 == 0) && a == ADDN(SUBN(G.raw, G.j1), G.j2) && a <= 200e4 && (G.j2 > 0 ==> a < 200e4))
+__CPROVER_loop_invariant(0 <= G.j2 && G.j2 <= 3 && (G.j1 == 0 || G.j2 == 0) && a == ADDN(SUBN(G.raw, G.j1), G.j2) && a < 200e4)
 __CPROVER_decreases(3 - G.j2)
 //@ tail LocalLinearization_direction 2
 G.j2++;
@@ -606,10 +592,6 @@ __CPROVER_ensures(ATAN2_OF(0, F0, T0) && ATAN2_OF(1, F0, S0))
 __CPROVER_ensures(gv_exc == 0 && G.nsqrt == 2 && G.natan2 == 2 && G.nsin == 2 && G.ncos == 2 && TRIG_OF(0) && TRIG_OF(1) && HINTS_EQ(0) && HINTS_EQ(1))
 __CPROVER_ensures(REDUCED(self))
 __CPROVER_ensures(POST_ROW(ALL6, SUM6, U_FX, U_FY, U_TX, U_TY, U_SX, U_SY))
-#if LIN_HALFOPEN
-__CPROVER_ensures(self->rhs > -200e4) /* half-open (-200, 200] gon */
-__CPROVER_ensures(self->rhs < 200e4)  /* half-open [-200, 200) gon */
-#endif
 #endif
 //@ entry LocalLinearization_angle
 GV_CANARY("LocalLinearization_angle entry");
@@ -624,7 +606,7 @@ __CPROVER_decreases(3 - G.j1)
 G.j1++;
 //@ loop LocalLinearization_angle 2
 __CPROVER_assigns(a, G.j2)
-__CPROVER_loop_invariant(0 <= G.j2 && G.j2 <= 3 && (G.j1 == 0 || G.j2 == 0) && a == ADDN(SUBN(G.raw, G.j1), G.j2) && a <= 200e4 && (G.j2 > 0 ==> a < 200e4))
+__CPROVER_loop_invariant(0 <= G.j2 && G.j2 <= 3 && (G.j1 == 0 || G.j2 == 0) && a == ADDN(SUBN(G.raw, G.j1), G.j2) && a < 200e4)
 __CPROVER_decreases(3 - G.j2)
 //@ tail LocalLinearization_angle 2
 G.j2++;
@@ -665,10 +647,6 @@ __CPROVER_ensures(gv_exc == 0 && G.nsqrt == 1 && G.natan2 == 1 && G.nsin == 1 &&
 __CPROVER_ensures(G.north == NORTH_GON(self->PD) * G2R)
 __CPROVER_ensures(REDUCED(self))
 __CPROVER_ensures(POST_ROW(ALL4, SUM4, U_FX, U_FY, U_TX, U_TY))
-#if LIN_HALFOPEN
-__CPROVER_ensures(self->rhs > -200e4) /* half-open (-200, 200] gon */
-__CPROVER_ensures(self->rhs < 200e4)  /* half-open [-200, 200) gon */
-#endif
 #endif
 //@ entry LocalLinearization_azimuth
 GV_CANARY("LocalLinearization_azimuth entry");
@@ -683,7 +661,7 @@ __CPROVER_decreases(3 - G.j1)
 G.j1++;
 //@ loop LocalLinearization_azimuth 2
 __CPROVER_assigns(a, G.j2)
-__CPROVER_loop_invariant(0 <= G.j2 && G.j2 <= 3 && (G.j1 == 0 || G.j2 == 0) && a == ADDN(SUBN(G.raw, G.j1), G.j2) && a <= 200e4 && (G.j2 > 0 ==> a < 200e4))
+__CPROVER_loop_invariant(0 <= G.j2 && G.j2 <= 3 && (G.j1 == 0 || G.j2 == 0) && a == ADDN(SUBN(G.raw, G.j1), G.j2) && a < 200e4)
 __CPROVER_decreases(3 - G.j2)
 //@ tail LocalLinearization_azimuth 2
 G.j2++;
